@@ -145,6 +145,38 @@ fn main() {
     }
     Ok(())
   });
+  // bounded exhaustive: every string of up to 6 characters over an alphabet that mixes base64 characters, padding, the
+  // separator and junk; an accepted value answers every accessor, and the parts recompose to the text
+  w("im_small_scope_accessors_total_and_recompose", || {
+    use identity_credential::sd_jwt_vc::metadata::IntegrityMetadata;
+    let alphabet = ['a', 'A', '1', '=', '-', '+', '/', ' '];
+    let mut cur: Vec<usize> = vec![];
+    let mut n = 0u32;
+    loop {
+      let mut k = cur.len();
+      loop {
+        if k == 0 { cur = vec![0; cur.len() + 1]; break; }
+        k -= 1;
+        if cur[k] + 1 < alphabet.len() { cur[k] += 1; for j in k + 1..cur.len() { cur[j] = 0; } break; }
+      }
+      if cur.len() > 6 { break; }
+      let text: String = cur.iter().map(|&i| alphabet[i]).collect();
+      n += 1;
+      let t2 = text.clone();
+      let r = std::panic::catch_unwind(move || {
+        match IntegrityMetadata::parse(&t2) {
+          Err(_) => None,
+          Ok(m) => Some((m.alg().to_owned(), m.digest().to_owned(), m.digest_bytes().len(), m.options().map(str::to_owned), m.to_string())),
+        }
+      }).map_err(|_| format!("IntegrityMetadata::parse({text:?}) is accepted but an accessor PANICS"))?;
+      if let Some((alg, digest, _len, options, shown)) = r {
+        let re = match &options { Some(o) => format!("{alg}-{digest}-{o}"), None => format!("{alg}-{digest}") };
+        if re != text || shown != text { return Err(format!("{text:?} is accepted with alg {alg:?} digest {digest:?} options {options:?}, shown as {shown:?}")); }
+      } else if !text.contains('-') { /* no separator: must be refused - nothing to check */ }
+    }
+    if n < 200_000 { return Err(format!("only {n} strings")); }
+    Ok(())
+  });
   w("im_accepted_integrity_metadata_has_total_accessors", || {
     use identity_credential::sd_jwt_vc::metadata::IntegrityMetadata;
     // every accepted value must answer alg / digest / digest_bytes / options without panicking (C05)
